@@ -20,7 +20,7 @@ CANON = ['{\n  a = 1;\n}\n', '{ a = 1; }\n', '{ pkgs }:\n{\n  a = 1;\n  b = {\n 
          'let\n  a = 1;\nin\nlet\n  b = 2;\n  d = 3;\nin\n\n{ c = a + b; }\n', '{ pkgs }:\nlet\n  a = 1;\nin\nlet\n  b = 2;\n  d = 3;\nin\n# body\n{ c = a + b; }\n# end\n']        # tenth round: removing the only leaf of a long attrpath
 NONCANON = ['\ufeff{ a = 1; }\n', '\ufeff{\n  a = 1;\n}\n', '{ a = 1; }\r\n', '{\r\n  a = 1;\r\n}\r\n', '{ a = "é→"; }\n', '{a=1;}', '{ a   =  1 ; }\n', '{\n\ta = 1;\n}\n', '\n{ a = 1; }\n', '{ a = 1; }   ', '{\n  a = 1;\n\n\n  b = 2;\n}\n', '[ 1 2 ]\n', 'x: x\n', '1\n']
 BROKEN = ['{ a = 1 }', '{\n  a = 1;\n  b = 2\n}\n', '{ a = [ 1 2; }', 'a.${b', '{ a, , b }: { a = 1; }\n', '{ a = 1;', '{ a = ; }\n', '{ a = 1; }}\n', 'let in', '{ a = 1 }\n', ')(', '{ a = "x; }\n', '\n\n{ a = 1; \n', '  { a = [ 1; }  \n', '']
-PATHS = ['a.n.b.c', 'a.n.b.d', 'a.n.b', 'a.n.k', 'a.n.fresh', '@@a', '@b', '@d', 'a.b.c', 'a.b.c.d', '@x.y.z', 'a.b.d', '"a${"', '"${"', 'b."x${"', '"$"', '"a$"', '"\\${"', 'a', 'b', 'b.c', 'z', 'a.b', '"a"', 'a..b', '', '@v', '@w', '@@v', '"q', 'x.y.z', 'é', '"é"', 'b\n', 'a\n', 'a.b\n', '@b\n', ' b', 'b ', 'b\t', 'b\r']
+PATHS = ['with.x', 'a.in', 'meta.rec.enable', 'if', 'b.then.c', 'z.let', 'a.n.b.c', 'a.n.b.d', 'a.n.b', 'a.n.k', 'a.n.fresh', '@@a', '@b', '@d', 'a.b.c', 'a.b.c.d', '@x.y.z', 'a.b.d', '"a${"', '"${"', 'b."x${"', '"$"', '"a$"', '"\\${"', 'a', 'b', 'b.c', 'z', 'a.b', '"a"', 'a..b', '', '@v', '@w', '@@v', '"q', 'x.y.z', 'é', '"é"', 'b\n', 'a\n', 'a.b\n', '@b\n', ' b', 'b ', 'b\t', 'b\r']
 VALUES = ['2', '"s"', '[ 1 2 ]', '{ k = 1; }', '1 +', '', '1 2', 'x: x', '# c', '"é"']
 # twelfth round: VALUES whose only damage is a character at either end that Python calls white space and Nix does not (the library refuses them; an
 # argument parser that strips them turns a refused value into an accepted one), next to values padded with real blanks
